@@ -130,9 +130,9 @@ def check_case(z, kind):
         if kind in ("next", "prev"):
             N = z["N"]; po = pre_off(z); t = z["t"]
             def eq(a, b): return a == b or (z["off"][a] == z["off"][b] and bool(z["dst"][a]) == bool(z["dst"][b]) and z["abbr"][a] == z["abbr"][b])
-            prevty = [z["default"]] + z["type"][:-1]
             skip0 = z["unix"][0] <= -(1 << 59)
-            if skip0 and not eq(z["type"][0], z["default"]): return None
+            prevty = [z["default"]] + z["type"][:-1]
+            if skip0 and N > 1: prevty[1] = z["default"]      # the sentinel is not part of the history
             ch = [(not eq(prevty[i], z["type"][i])) and not (i == 0 and skip0) for i in range(N)]
             cand = [i for i in range(N) if ch[i] and (z["unix"][i] > t if kind == "next" else z["unix"][i] < t)]
             ok, out = nat.trans(kind == "next", t)
